@@ -9,6 +9,7 @@ import (
 
 	"github.com/lidofinance/dc4bc/client/api/dto"
 	"github.com/lidofinance/dc4bc/client/modules/state"
+	"github.com/lidofinance/dc4bc/client/types"
 	"github.com/lidofinance/dc4bc/fsm/types/requests"
 	"github.com/lidofinance/dc4bc/storage"
 
@@ -248,6 +249,35 @@ func runC08(c *Ctx, kind string, seed uint64) {
 			_ = w.Board.Send(world.SignMsg(w.Nodes[1], b, EvSigRecon, mkReq(forged), ""))
 		}
 		w.Run(policy, 2000)
+	}
+	// last: one more batch that t participants finish while the slowest one never answers (its operation
+	// stays pending on its node only), after which anybody re-posts that batch's opening message: what the
+	// nodes make of the repeated message may not depend on their local operation pools
+	if kind != "two-rounds" {
+		for _, rd := range rounds {
+			ce := &Ceremony{W: w, N: n, T: t, Round: rd}
+			if !ce.AllIn(StIdle) || t >= n {
+				continue
+			}
+			slow := r.Intn(n)
+			var signers []int
+			for i := 0; i < n; i++ {
+				if i != slow {
+					signers = append(signers, i)
+				}
+			}
+			prop, err := ce.RunBatch(BatchSpec{Proposer: signers[0], Signers: signers, NoLate: true, Data: map[string][]byte{"g": r.Bytes(9)}}, policy)
+			if err != nil || prop == nil {
+				c.Inconclusive("batch with a silent participant: %v", err)
+				return
+			}
+			again := *prop
+			_ = w.Board.Send(again)
+			w.OpFilter = func(nd *world.Node, op *types.Operation) bool { return string(op.Type) != OpSigning }
+			w.Run(policy, 2000)
+			w.OpFilter = nil
+			c.Add("finished_batches_whose_opening_message_was_re-posted", 1)
+		}
 	}
 	w.AfterStep = nil
 	c.Add("same_prefix_agreement_checks", agreeChecks)
